@@ -265,14 +265,15 @@ def kani_module(prog, want_names=True, want_rt=False, want_grid=False):
             nb = len(name.encode('utf-8'))
             nc = len(name)
             specs = ['{:%d}' % nb, '{:.2}', '{:*^%d.3}' % (nb + 4), '{:>%d}' % (nb + 2), '{:^%d}' % (nc + 3), '{:%d.1}' % max(nc - 1, 1), '{:-<%d.%d}' % (nc + 1, max(nc - 1, 1))]
-            checks = '\n'.join('        assert!(format!("%s", v).as_bytes() == format!("%s", %s).as_bytes());' % (sp, sp, rs_str(name)) for sp in specs)
-            out.append('''    // bounded sample of format specs on the real Formatter (width = byte length, precision 2, fill/centre, right-align)
+            for part, sub in (('a', specs[:4]), ('b', specs[4:])):
+                checks = '\n'.join('        assert!(format!("%s", v).as_bytes() == format!("%s", %s).as_bytes());' % (sp, sp, rs_str(name)) for sp in sub)
+                out.append('''    // bounded sample of format specs on the real Formatter (part %s)
     #[kani::proof]
     #[kani::unwind(%d)]
-    fn grid_%s() {
+    fn grid_%s_%s() {
         let v: En = %s;
 %s
-    }''' % (nb + 8, v.ident, any_value(prog, v), checks))
+    }''' % (part, nb + 8, v.ident, part, any_value(prog, v), checks))
     if want_rt and 'EnumMessage' in prog.derives and 'EnumString' in prog.derives:
         for v in prog.variants:
             val = any_value(prog, v)
